@@ -62,13 +62,17 @@ pub fn observe_with<V: Fv>(seed: [u8; 32], tag: &str, maker: impl FnOnce() -> (V
         Outcome::Ret(Err(_)) => ("err", vec![]),
         Outcome::Panic(_) => ("panic", vec![]),
     };
+    // shape of the signing tree in pre-order: branch -> length of its l polynomial, leaf -> 0 (plus: leaf second component is zero)
+    let tree = V::sk_tree(&sk);
+    let shape: Vec<u64> = tree.iter().map(|nd| match nd { verif::TreeNode::Branch(l) => l.len() as u64, verif::TreeNode::Leaf(_, _) => 0 }).collect();
+    let leaf_second_zero = tree.iter().all(|nd| match nd { verif::TreeNode::Leaf(_, b) => b.0 == 0.0 && b.1 == 0.0, _ => true });
     let leaves = V::sk_leaves(&sk);
     let leaves_j: Vec<Value> = leaves.iter().map(|x| f64_words(*x)).collect();
     let heavy = json!({"ev":"key","n":V::N,"seed":bytes_json(&seed),"panic":false,
         "f":i16s_json(&f),"g":i16s_json(&g),"F":i16s_json(&cf),"G":i16s_json(&cg),
         "skb":bytes_json(&skb),"pkb":bytes_json(&pkb),
         "sk_rt":sk_rt,"sk_rt_bytes_equal":sk_rt_bytes == skb,"pk_rt":pk_rt,"pk_rt_bytes_equal":pk_rt_bytes == pkb,
-        "leaves":leaves_j,"cands":cands,"tag":tag});
+        "leaves":leaves_j,"tree_shape":shape,"leaf_second_zero":leaf_second_zero,"cands":cands,"tag":tag});
     let light = json!({"ev":"keylight","n":V::N,"seed":bytes_json(&seed),"panic":false,
         "maxf":maxabs(&f),"maxg":maxabs(&g),"maxF":maxabs(&cf),"maxG":maxabs(&cg),
         "minf":minval(&f),"ming":minval(&g),"minF":minval(&cf),
